@@ -57,6 +57,30 @@ def slow_recipient(rng):
     return {'cfg': cfg, 'rounds': rounds}
 
 
+def slow_eavesdropper(rng):
+    """a third connection eavesdrops on everything and stops reading: its copies queue up to max_outgoing_bytes and then
+    vanish silently -- the addressed recipient still gets every message exactly once and the caller no error"""
+    cfg = {'maxOutgoing': rng.choice([2000, 20000])}
+    rounds = [{'ops': {'1': [{'k': 'connect', 'uid': 0}, {'k': 'hello'}]}},
+              {'ops': {'2': [{'k': 'connect', 'uid': 0}, {'k': 'hello'}, {'k': 'req', 'n': 'com.example.A', 'f': 0}]}},
+              {'ops': {'3': [{'k': 'connect', 'uid': 0}, {'k': 'hello'}, {'k': 'addmatch', 'rule': rng.choice(["eavesdrop='true',interface='com.example.I'", "eavesdrop='true',type='method_call',interface='com.example.I'"])}]}},
+              {'ops': {'3': [{'k': 'stall'}]}}]
+    ser = 4000
+    for _ in range(rng.choice([4, 6, 8])):
+        ops = []
+        for _j in range(rng.choice([1, 2, 3])):
+            ser += 1
+            ops.append({'k': 'send', 'ty': rng.choice([1, 1, 4]), 'dst': rng.choice(['com.example.A', {'slot': 2}]), 'path': '/a',
+                        'ifc': 'com.example.I', 'mem': 'Ma', 'sig': 'uay', 'body': [ser, [ser % 251] * rng.choice([20000, 40000])],
+                        'ser': ser, 'fl': rng.choice([0, 1])})
+        rounds.append({'ops': {'1': ops}})
+        if rng.random() < 0.4:
+            rounds.append({'ops': {'2': [{'k': 'send', 'ty': 2, 'dst': {'slot': 1}, 'rs': ser, 'sig': 's', 'body': ['ok']}]}})
+    rounds.append({'ops': {'3': [{'k': rng.choice(['unstall', 'unstall', 'aclose'])}]}})
+    rounds.append({'ops': {'1': [{'k': 'query', 'q': 'list'}]}})
+    return {'cfg': cfg, 'rounds': rounds}
+
+
 def fire_and_forget(rng):
     """a sender that writes a burst (more than the bus reads at once), including things the bus answers, and closes at
     once without reading: everything it wrote is still dispatched, in order"""
@@ -84,7 +108,9 @@ def fire_and_forget(rng):
 
 
 def gen(rng, i):
-    if i % 6 in (1, 5):
+    if i % 6 == 1:
+        return slow_eavesdropper(rng)
+    if i % 6 == 5:
         return slow_recipient(rng)
     if i % 6 == 2:
         return fire_and_forget(rng)
